@@ -15,6 +15,7 @@ import AkdModel.AdvDir
 import AkdModel.Proto
 import AkdModel.Blob
 import AkdModel.Vrf
+import AkdModel.Batch
 import AkdModel.Conc
 import AkdModel.PollTrace
 open Akd Akd.Wire
@@ -281,6 +282,16 @@ def stepL1 (st : DState) (toks : List String) : Option (DState × String) :=
   | ["dir.lookup", u] => do
     let u ← parseHex? u
     some (st, showErr (fun (r : LookupProof × Nat × Dig) => s!"{r.2.1} {Show.dig r.2.2} {Show.lookup r.1}") (st.dir.lookup c u))
+  | "dir.batchlookup" :: us => do
+    let us ← us.mapM parseHex?
+    some (st, showErr (fun (r : List LookupProof × Nat × Dig) => s!"{r.2.1} {Show.dig r.2.2} {" ".intercalate (r.1.map Show.lookup)}".trimAsciiEnd.toString)
+      (st.dir.batchLookup c us))
+  | "spec.batchlookup" :: us => do
+    let us ← us.mapM parseHex?
+    let sp := Spec.run st.hist
+    let rs := us.map (Spec.lookup sp)
+    if rs.any Option.isNone then some (st, "none")
+    else some (st, ("ok " ++ " ".intercalate (rs.filterMap fun r => r.map fun v => s!"({v.epoch},{v.version},{hexOfBytes v.value})")).trimAsciiEnd.toString)
   | ["dir.history", u, p] => do
     let u ← parseHex? u
     let p ← parseParams p
